@@ -20,6 +20,15 @@ if os.environ.get("ROUND3"):
              "allocator wrappers, condition variables, reference counting, clocks, error handling), in less-travelled public entry points of the same "
              "API (variants, _secure/_dynamic/_n/_ignore_case forms, clean-up / reset / move / swap / copy paths), in initialisation and tear-down, or "
              "in the glue between two components — as long as the effect is a genuine violation of THIS property.\n\n")
+if os.environ.get("ROUND4"):
+    extra = ("In THIS round go through the property statement CLAUSE BY CLAUSE and aim at clauses and situations the earlier rounds (listed above) left "
+             "untouched. Prefer changes whose effect shows only (a) on an error / refusal / roll-back path and in the state it leaves behind for the NEXT "
+             "operation (stale field, half-updated structure, resource not returned), (b) when two API calls that are rarely combined are used one after the "
+             "other, (c) at sizes, counts, lengths or timestamps near a type limit or an internal threshold (growth, wrap, rounding), (d) for NULL / empty / "
+             "zero-length / self-aliasing arguments that the API explicitly allows, or (e) in a platform or configuration variant. Changes may be anywhere in the "
+             "library (including helper modules the anchored code calls) as long as the effect is a genuine violation of THIS property. "
+             "Your demo will be rebuilt elsewhere with `-I<root> -I<root>/include -I<root>/_b/generated/include`: never #include an absolute path, use paths "
+             "relative to the repository root (e.g. \"source/ring_buffer.c\").\n\n")
 prop = json.dumps({k: p[k] for k in ('id', 'title', 'statement', 'quantifier', 'why_tests_cant', 'anchors')}, indent=1)
 print(f"""You are testing how well a C library's correctness properties are guarded. The library is awslabs/aws-c-common. You have your own scratch git worktree of it at {wt} (a detached checkout of the current HEAD). Work ONLY inside {wt} (and subdirectories you create there or under {wt}_out); do not read or write /verif, /repo, /root, or other directories under /tmp — your result must be independent of any existing verification machinery. No network.
 
